@@ -469,7 +469,10 @@ func RunModel(ctx *vrun.Ctx, prop string, m ModelCfg, timeout time.Duration) err
 			e.seed = ctx.Seed*1000003 + h
 			if m.Prune {
 				e.f = NewFactory(sc, NetOpts{Maturity: 1, BIP34: false}, e.seed)
-				e.f.Preamble(14)
+				e.f.NoSpecial = true
+				e.f.SpendP = 0.3
+				e.f.MaxSpends = 3
+				e.f.Preamble(50)
 			} else if m.Catalogue {
 				o := NetOpts{Maturity: 2, BIP34: false}
 				if m.BIP34 {
@@ -546,7 +549,7 @@ func RunModel(ctx *vrun.Ctx, prop string, m ModelCfg, timeout time.Duration) err
 		var err error
 		if m.Crash {
 			if m.Prune {
-				err = crashWorkload(ctx, f, p, caches[cacheSel[i]], m.Nested, coll, 2048, 700)
+				err = crashWorkload(ctx, f, p, caches[cacheSel[i]], m.Nested, coll, 12288, 2048)
 			} else {
 				err = crashWorkload(ctx, f, p, caches[cacheSel[i]], m.Nested, coll, 0, 0)
 			}
